@@ -843,6 +843,14 @@ def d3_length(ctx):
               'the loop condition %s is not "bytes left > 0": the reader stops early or reads past the body' % norm_text(loop.test), loc(loop))
     if not okc:
         return
+    # surplus after the body is discarded with the connection (property statement): that needs a read that can see past the
+    # body.  A request size capped by the counter can never overrun, so surplus stays buffered, the connection stays open
+    # and is parsed as the next response.
+    rcall = [c for c in F.node_calls(rd) if U.attr_name(c) == 'read'][0]
+    size_names = {x.id for a in list(rcall.args) + [k.value for k in rcall.keywords] for x in ast.walk(U.expand_locals(f.node, a)) if isinstance(x, ast.Name)}
+    ck.expect(ctr not in size_names, 'C08-D3', f.qual, 'read size %s is independent of %s' % (norm_text(rcall.args[0]) if rcall.args else '()', ctr),
+              'the read is capped by the remaining length: surplus bytes after a length-delimited body can no longer be seen, '
+              'so they are not discarded with the connection but parsed as the next response', loc(rd.stmt))
     # (d) counter initialised from int(Content-Length); unparsable / negative -> until close
     writes = name_writes(f.node, ctr)
     inits = [w for w in writes if w[1] == 'assign' and _loop_of(f.node, w[2], pm) is None]
